@@ -133,6 +133,13 @@ EXTRA = [
     ("cm_adpcm_mono", MPQ + "compression/methods.rs", r"ADPCM_MONO\s*:\s*u8\s*=\s*" + NUM, 0x40),
     ("cm_adpcm_stereo", MPQ + "compression/methods.rs", r"ADPCM_STEREO\s*:\s*u8\s*=\s*" + NUM, 0x80),
     ("cm_lzma", MPQ + "compression/methods.rs", r"LZMA\s*:\s*u8\s*=\s*" + NUM, 0x12),
+    ("ptch_sig", MPQ + "patch/header.rs", r"PTCH_SIGNATURE\s*:\s*u32\s*=\s*" + NUM, 0x48435450),
+    ("ptch_md5_sig", MPQ + "patch/header.rs", r"MD5_SIGNATURE\s*:\s*u32\s*=\s*" + NUM, 0x5f35444d),
+    ("ptch_xfrm_sig", MPQ + "patch/header.rs", r"XFRM_SIGNATURE\s*:\s*u32\s*=\s*" + NUM, 0x4d524658),
+    ("ptch_copy_magic", MPQ + "patch/header.rs", NUM + r"\s*=>\s*Ok\(PatchType::Copy\)", 0x59504f43),
+    ("ptch_bsd0_magic", MPQ + "patch/header.rs", NUM + r"\s*=>\s*Ok\(PatchType::Bsd0\)", 0x30445342),
+    ("ptch_md5_block", MPQ + "patch/header.rs", r"md5_block_size\s*!=\s*" + NUM, 40),
+    ("ptch_bsdiff40", MPQ + "patch/apply.rs", r"signature\s*!=\s*" + NUM, 0x3034464649445342),
     ("wdt_w2t_clamp", WDT + "lib.rs", r"tile_x\.min\(\s*" + NUM + r"\s*\)", 63),
     ("wdt_version", WDT + "chunks/mod.rs", r"WDT_VERSION\s*:\s*u32\s*=\s*" + NUM, 18),
     ("wdt_map_size", WDT + "chunks/mod.rs", r"WDT_MAP_SIZE\s*:\s*usize\s*=\s*" + NUM, 64),
